@@ -97,6 +97,15 @@ def main(inp, outp):
             return "state", cart(get_body("Sun").propagate(arg))
         if op == "moon":
             return "state", cart(get_body("Moon").propagate(arg))
+        if op in ("sun-coincide", "moon-coincide"):
+            # history + coincidence: the body is first asked at a UTC date, then at the date with the SAME CLOCK READING in the
+            # label scale (another instant, 19 s .. 69 s away, unless the label is UTC): the answer is the state of that instant
+            body = get_body("Sun" if op.startswith("sun") else "Moon")
+            body.propagate(ARG)
+            coin = Date(ARG.datetime, scale=la)
+            got = cart(body.propagate(coin))
+            ref = cart(body.propagate(coin.change_scale("UTC") if la != "UTC" else coin))
+            return "pairs", ([got], [ref])
         if op == "frame":
             sv = StateVector([6524834.0, 686297.0, 2650000.0, -4901.0, 5533.0, -1976.0], arg, "cartesian", "EME2000")
             a = np.asarray(sv.copy(frame="ITRF"), float)
@@ -185,7 +194,7 @@ def main(inp, outp):
             outs, refs = got
             err = max(float(np.abs(a - b).max()) for a, b in zip(outs, refs))
             vmag = max(np.linalg.norm(refs[0][3:6]), 1.0)
-            clause(f"{op}: same physical result whatever the labels (|v| x 3 us + 5 mm)", err <= vmag * 3e-6 + 5e-3, f"scale/{op}",
+            clause(f"{op}: same physical result whatever the labels (|v| x 3 us + 5 mm)", err <= vmag * (50e-6 if op.endswith("-coincide") and op[:3] in ("sun", "moo") else 3e-6) + 5e-3, f"scale/{op}",
                    f"{op} la={la} le={le}: differs from the all-UTC computation at the same instant by {err:.6g}", data)
         elif kind == "state+date":
             err = float(np.abs(got[0] - ref[0]).max())
